@@ -426,12 +426,23 @@ class _SeekInterp:
         h = self.helper(call_name(e)[5:])
         if h is None or not self.touches_position(h):
             return None
-        if e.args or e.keywords or self.depth > 3 or not stmt:
+        params = [a_.arg for a_ in h.args.args][1:]
+        plain = all(not isinstance(a_, ast.Starred) for a_ in e.args) and all(k_.arg in params for k_ in e.keywords) and len(e.args) <= len(params) \
+            and not (h.args.vararg or h.args.kwarg or h.args.kwonlyargs or h.args.defaults)
+        bound = dict(zip(params, e.args), **{k_.arg: k_.value for k_ in e.keywords}) if plain else {}
+        if not plain or set(bound) != set(params) or self.depth > 3 or not stmt:
             raise _Undec("helper call `%s` with arguments / as a value is not interpreted" % src(e)[:60])
+        # the arguments are linear expressions of the caller's state (a frame count handed to a helper that was extracted from the method)
+        argv = {}
+        for nm_, a_ in bound.items():
+            l_ = lin(a_, st.full_env())
+            if l_ is None:
+                raise _Undec("helper call `%s`: argument `%s` is not a linear expression of the position" % (src(e)[:60], src(a_)[:30]))
+            argv[nm_] = _clean(l_)
         self.depth += 1
         try:
             saved_env, saved_none = st.env, st.none
-            st.env, st.none = {}, set()
+            st.env, st.none = dict(argv), set()
             res = self.block(h.body, st)
             out = []
             for (x, status) in res:
